@@ -218,6 +218,43 @@ KEYWORDISH = ["iffy", "printx", "in_", "nextval", "format", "forx", "BEGINx", "x
               "IF", "xif", "_in", "in1", "is_", "next_", "print1", "xprint", "ENDFILEs", "BEGINFILE_", "nul", "tru", "e3", "_", "__x", "x__", "a1b2"]
 
 
+# ---------------------------------------------------------------------------- comments and blank space of unusual bytes
+# Small programs with a documented output and many kinds of gaps (line ends after statements, inside brackets, after
+# operators, around braces and 'else', inside headers).  A comment may hold any bytes: it runs to the line feed, and only
+# the line feed ends it.
+LAYOUT_BASES = [
+    (b"BEGIN {\n  x = 1\n  y = x + 2\n  print x, y\n}\n", [], "1 3\n"),
+    (b"function f(a, b) {\n  return a * b\n}\nBEGIN { n = 0 }\n{\n  n = n + f($, 2)\n  if ($ > 1) {\n    print \"big\", $\n  } else {\n"
+     b"    print \"small\"\n  }\n}\nEND {\n  print n\n}\n", ["[1, 2, 3]"], "small\nbig 2\nbig 3\n12\n"),
+    (b"BEGIN {\n  s = \"a#b\"\n  t = 'c # d'\n  arr = [1,\n    2,\n    3]\n  o = {k: 1,\n    m: 2}\n  for (i = 0; i < 3; i++) {\n"
+     b"    print arr[i], s\n  }\n  print t, o.m\n}\n", [], "1 a#b\n2 a#b\n3 a#b\nc # d 2\n"),
+    (b"BEGIN { a = 1; b = 2\n  while (a < 4) {\n    a = a +\n      1\n  }\n  print a, b\n}\n", [], "4 2\n"),
+    (b"$.v > 1 {\n  total += $.v\n  names[$index] = $.n.upper()\n}\nEND {\n  print total, names.length()\n}", ['[{"v": 1, "n": "a"}, {"v": 2, "n": "b"}, {"v": 5, "n": "c"}]'],
+     "7 3\n"),
+]
+# byte sequences that some lexer somewhere takes for a line end or for blank space, or that break naive decoding
+VERY_SPECIAL = [b"\r", b"\r\r", b"\t", b"\x0c", b"\x0b", b"\xc2\x85", b"\xe2\x80\xa8", b"\xc3", b"\xff", b"\x00", b"\r \r"]
+SPECIAL = [b"\x01", b"\x08", b"\x1a", b"\x1b", b" ", b"\"", b"#", b"'", b"/", b"\\", b"{", b"}", b";", b"\x7f", b"\x80", b"\x85", b"\xa0", b"\xc2",
+           b"\xe2", b"\xe2\x80\xa9", b"\xef\xbb\xbf", b"\xc3\xa9", b"\xe6\x97\xa5\xe6\x9c\xac", b"\xf0\x9f\x98\x80", b"\xe2\x80", b"\xf0\x9f",
+           b"\xc0\x80", b"\xed\xa0\x80", b"\xfe\xff", b"\x0b\x0c", b"\r\t\r", b"\\n", b"\\\r", b"\x1e", b"\x1c", b"\x1d"]
+BLANKS = [b" ", b"\t", b"\r", b"\r\r", b" \r ", b"\t\r\t", b"\r\t", b"   \t", b"\r \r \r"]
+
+
+def comment_body(rng, seq, how):
+    """the text of a comment around the byte sequence: what follows it would change the program if the comment ended there"""
+    if how == 0:
+        return b" keep" + seq + b" + 1"
+    if how == 1:
+        return seq + b"; print \"LEAK\""
+    if how == 2:
+        return b" note" + seq                  # directly before the line feed
+    if how == 3:
+        return seq + b" } print 7 {"
+    if how == 4:
+        return seq
+    return b" a" + seq + b" b" + seq + seq + b" - 1"
+
+
 class C13(Check):
     pid = "C13"
     props = ["C13_lexer.v"]
@@ -226,7 +263,11 @@ class C13(Check):
             "tokens, # comments before line ends, newlines in every permitted gap, statement-separating newlines replaced by ';' (not "
             "after '}'), newlines dropped inside brackets, either quote style; all layouts of one token sequence must behave alike "
             "(stdout, outcome). Plus: LEX of every ordered pair of token kinds written with and without a separator against the "
-            "reference lexer, keyword-prefixed/suffixed identifiers, number spellings, escape sequences; non-trivial = the layout "
+            "reference lexer, keyword-prefixed/suffixed identifiers, number spellings, escape sequences; five programs with a "
+            "documented output re-written with a comment or a run of blank bytes in every gap (before the first and after the last "
+            "token included): comments holding lone CR, CR CR, TAB, FF, VT, NUL, NEL, U+2028, truncated and invalid UTF-8 in every gap, "
+            "every other byte value and multi-byte sequence in random gaps, followed by text that would change the program if the "
+            "comment ended before the line feed; non-trivial = the layout "
             "differs from the original in >= 3 gaps")
 
     def project(self, r):
@@ -323,6 +364,8 @@ class C13(Check):
                 self.add_run(text, inputs, {"what": what, "key": key, "layout": "variant %d (%d gaps changed)" % (j, changed)}, changed >= 3)
         self.skipped = skipped
 
+        self.comment_cases(rng, thorough)
+
         # ---- the lexer against the reference on pairs of tokens written with and without a separator
         pairs = [(a, b) for a in PAIR_TOKENS for b in PAIR_TOKENS]
         if not thorough:
@@ -391,6 +434,73 @@ class C13(Check):
                 meta["want_outcome"], meta["want_stdout"] = want
             self.add_run(prog.encode("utf-8"), inputs, meta, True)
         return self.cases
+
+    # ------------------------------------------------------------------ comments / blank space of every byte, at every position
+    def comment_cases(self, rng, thorough):
+        singles = [bytes([b]) for b in range(256) if b != 0x0A]
+        dropped = made = 0
+        for bi, (src, inputs, want) in enumerate(LAYOUT_BASES):
+            lay = Layout(src, rng)
+            sig0, err0 = token_signature(src)
+            if not lay.ok or err0 is not None:
+                continue
+            toks = lay.toks
+            key = "g%d" % self.n
+            self.add_run(src, inputs, {"what": "layout base %d" % bi, "key": key, "layout": "original", "want_outcome": "ok", "want_stdout": want}, False)
+            # positions: -1 = before the first token, i = between token i and i+1, len-1 = after the last token
+            gaps = list(range(-1, len(toks)))
+
+            def variant(g, body=None, blank=None):
+                """the program with a comment (body) or blank space put into gap g; None where the statement forbids it there"""
+                if g == -1:
+                    head, gap, tail = b"", src[:toks[0].start], src[toks[0].start:]
+                elif g == len(toks) - 1:
+                    head, gap, tail = src[:toks[-1].end], src[toks[-1].end:], b""
+                else:
+                    head, gap, tail = src[:toks[g].end], src[toks[g].end:toks[g + 1].start], src[toks[g + 1].start:]
+                if blank is not None:
+                    k = rng.randint(0, len(gap))
+                    return head + gap[:k] + blank + gap[k:] + tail
+                pre = rng.choice([b"", b" ", b"\t", b"  "])
+                if b"\n" in gap:
+                    k = gap.index(b"\n") if rng.random() < 0.7 else gap.rindex(b"\n")
+                    return head + gap[:k] + pre + b"#" + body + gap[k:] + tail
+                if g == len(toks) - 1:
+                    return head + gap + pre + b"#" + body + rng.choice([b"", b"\n"])      # a comment may end with the text
+                if g == -1 or lay.newline_ok(g):
+                    return head + gap + pre + b"#" + body + b"\n" + rng.choice([b"", b" ", b"\t"]) + tail
+                return None
+
+            def emit(g, text, what):
+                nonlocal dropped, made
+                if text is None or text == src:
+                    return
+                sig, err = token_signature(text)
+                if err is not None or sig != sig0:
+                    dropped += 1            # the reference lexer reads other tokens: it would be the layout engine's fault
+                    return
+                made += 1
+                where = "before the first token" if g == -1 else "after the last token" if g == len(toks) - 1 else \
+                    "between %r and %r" % (tok_text(src, toks[g]).decode(), tok_text(src, toks[g + 1]).decode())
+                self.add_run(text, inputs, {"what": "layout base %d" % bi, "key": key, "layout": "%s %s" % (what, where),
+                                            "want_outcome": "ok", "want_stdout": want, "prog_hex": text.hex()}, True)
+
+            for g in gaps:
+                for seq in VERY_SPECIAL:
+                    hows = range(6) if thorough else [rng.randrange(6)]
+                    for how in hows:
+                        emit(g, variant(g, body=comment_body(rng, seq, how)), "comment holding %r (form %d)" % (seq, how))
+                for blank in (BLANKS if thorough else rng.sample(BLANKS, 3)):
+                    emit(g, variant(g, blank=blank), "blank space %r" % blank)
+            for seq in SPECIAL + singles:
+                if seq in VERY_SPECIAL:
+                    continue
+                reps = (len(gaps) if seq in SPECIAL else 40) if thorough else (8 if seq in SPECIAL else 1)
+                for g in (gaps if reps == len(gaps) else [rng.choice(gaps) for _ in range(reps)]):
+                    how = rng.randrange(6)
+                    emit(g, variant(g, body=comment_body(rng, seq, how)), "comment holding %r (form %d)" % (seq, how))
+        self.layout_dropped = dropped
+        self.layout_made = made
 
     def outside_strings(self, src, regex_aware=True):
         """the bytes of a program that are not inside string/regex literals or comments"""
@@ -501,7 +611,8 @@ class C13(Check):
                         viol.append((c, "tokens %r and %r written as %r lex to %r, written as %r to %r"
                                      % (c.meta["a"], c.meta["b"], base[0].meta["src"], base[1], c.meta["src"], v)))
                         break
-        return viol, {"layout_groups": ngroups, "layouts_compared": nlay, "programs_skipped": getattr(self, "skipped", 0)}
+        return viol, {"layout_groups": ngroups, "layouts_compared": nlay, "programs_skipped": getattr(self, "skipped", 0),
+                      "byte_layouts": getattr(self, "layout_made", 0), "byte_layouts_dropped": getattr(self, "layout_dropped", 0)}
 
 
 CHECK = C13()
